@@ -91,6 +91,10 @@ class LeanError(Exception):
     pass
 
 
+class EnoughFailures(Exception):
+    """raised by Ctx.fail once the number of recorded failures makes further exploration pointless"""
+
+
 def _run(cmd, cwd=LEAN, timeout=3600):
     env = dict(os.environ)
     p = subprocess.run(cmd, cwd=cwd, env=env, stdout=subprocess.PIPE, stderr=subprocess.STDOUT, text=True, timeout=timeout)
@@ -294,6 +298,10 @@ class Ctx:
         """kind: 'property' (impl differs from the theorem's right-hand side: a failing input),
                  'correspondence' (impl differs from the model on the property's observables)"""
         self.failures.append(dict(signature=signature, what=what, kind=kind, payload=payload))
+        # a broken tree can fail on thousands of cases: the verdict is settled long before, stop exploring
+        unknown = [f for f in self.failures if f['signature'] not in self.known]
+        if len(unknown) >= 400 or len({f['signature'] for f in unknown}) >= 40:
+            raise EnoughFailures()
 
     def stream(self, name):
         if name not in self.streams:
